@@ -13,6 +13,13 @@ RULE = ("valid and invalid texts of the C01/C05 corpus (with %define/uses mixed 
         "path) vs loadConfigFile(inline text); plus unbalanced cuts which must be "
         "rejected; non-trivial = at least one cut applied; distinct by (schema, text, cut)")
 
+RULE_FIRST_CHARACTER = ("; in a share of the texts one line BEGINS (column 0) with a character that is data to the grammar (not white "
+                        "space for strip()) but that decoders, editors and terminals treat as a mark or drop at the start of a stream "
+                        "(U+FEFF byte order mark, U+FFFE, zero-width space, word joiner, soft hyphen, LRM, SUB) and a cut STARTS at that "
+                        "line, so that the character is the first character of the fragment resource (or, uncut at line 1, of the top "
+                        "resource); plus, real vs real, valid texts under keytype string with free-form keys, where such a character is "
+                        "part of a key name and must arrive in the value tree")
+
 
 def same_outcome(a, b):
     """equal value tree, or both rejected"""
@@ -97,9 +104,13 @@ def run(ctx):
     for c in base:
         c.lines = add_defines(rng, c.lines)
         c.lines, midline = add_midline_line_ends(rng, c.lines)
+        c.lines, firsts = add_first_characters(rng, c.lines)
         k = rng.random()
         special = None
-        if k < 0.15:
+        if firsts and k < 0.85:
+            # the cut starts at a line that begins with such a character: it is the first character of the fragment
+            special = cut_starting_at(rng, c.lines, [i for _, _, i in firsts])
+        elif k < 0.15:
             special = cutter.cut_via_define(rng, c.lines)
         elif k < 0.35:
             special = cutter.cut_shared(rng, c.lines)
@@ -125,6 +136,13 @@ def run(ctx):
             d.meta["midline"] = midline
             for kind, _, _ in midline:
                 ctx.count("mid-line-line-end:" + kind)
+        if firsts:
+            d.meta["firsts"] = firsts
+            docs = [main] + list(files.values())
+            for kind, code, _ in firsts:
+                ctx.count("first-character-of-line:" + kind)
+                if any(ls and ls[0][:1] == chr(int(code[2:], 16)) for ls in docs):
+                    ctx.count("first-character-of-resource:" + code)
         inl.append(c)
         cuts.append(d)
         for _, _, where, _, _ in placements:
@@ -180,7 +198,8 @@ def run(ctx):
             ctx.violate("moving balanced lines into an %%include changed the outcome: inline %s, with include %s" % (a.out[:2], b.out[:5]),
                         dict(b.replay(), inline=a.lines, inline_outcome=a.out, include_outcome=b.out,
                              placements=b.meta["placements"], entry=b.meta["entry"],
-                             mid_line_line_end_characters=b.meta.get("midline", [])),
+                             mid_line_line_end_characters=b.meta.get("midline", []),
+                             first_characters_of_lines=b.meta.get("firsts", [])),
                         signature="C06:%s->%s" % (a.out[0], b.out[0]))
     for u in unb:
         ctx.count("unbalanced:" + u.out[0])
@@ -191,7 +210,8 @@ def run(ctx):
     if cuts:
         ctx.sample({"main": cuts[0].lines, "files": cuts[0].files, "outcome": cuts[0].out[:2]})
     _through_symlinks(ctx)
-    return core.finish(ctx, obligations, discharged, names, RULE,
+    _first_character_in_key_names(ctx)
+    return core.finish(ctx, obligations, discharged, names, RULE + RULE_FIRST_CHARACTER,
                        "lake build ZCV.Props.C06 && lake env lean ZCV/Audit/C06.lean",
                        ["resolve table computed with urllib.parse only", "file system and urlopen are outside the model"])
 
@@ -254,4 +274,178 @@ def _through_symlinks(ctx):
                                 % (rel, way, got, inline), {"layout": "enabled/site.conf -> ../available/site.conf ; cur -> rel/v2", "resource": rel,
                                                             "way": way, "with_include": got, "inline": inline}, signature="C06:symlink:%s" % got[0])
     finally:
+        shutil.rmtree(root, ignore_errors=True)
+
+
+# characters that the configuration grammar takes for DATA - str.strip() / split() leave them alone, so at the start of a line they
+# are the start of the key (or of whatever token the line holds) - while other layers treat them as a mark, as ignorable or as an
+# end marker when they come FIRST in a stream: the byte order mark (codecs 'utf-8-sig' / 'utf-16', editors), its byte-swapped
+# non-character, the zero-width / invisible format characters, SUB (end of text file to DOS).  A resource is its characters: the
+# first one belongs to its first line like any other
+FIRST = ["\ufeff"] * 5 + ["\ufffe", "\u200b", "\u2060", "\u00ad", "\u200e", "\x1a"]
+
+
+def add_first_characters(rng, lines, p=0.15):
+    """in a share p of the texts: one line (seldom two) gets a character of FIRST in column 0 - in front of a key line (with or
+    without its indentation: the character is then the whole key, or the start of the key), of a comment, of a new comment line,
+    or of any line at all (the first one included: the start of the top resource).
+    Returns (lines, [[kind, "U+XXXX", index of the line]])"""
+    if not lines or rng.random() >= p:
+        return lines, []
+    out = list(lines)
+    marks = []
+    for _ in range(rng.choice([1, 1, 1, 2])):
+        ch = rng.choice(FIRST)
+        kind = rng.choice(["key", "key", "key", "comment", "comment-line", "any", "line-1"])
+        kvs = [i for i, l in enumerate(out) if _KV.match(l)]
+        cms = [i for i, l in enumerate(out) if l.strip().startswith("#")]
+        if kind == "key" and not kvs:
+            kind = "any"
+        if kind == "comment" and not cms:
+            kind = "comment-line"
+        taken = {j for _, _, j in marks}
+        if kind == "comment-line":
+            i = rng.randint(0, len(out))
+            out.insert(i, ch + rng.choice(["# note", "#", "# k v"]))
+            marks = [[k0, c0, j + 1 if j >= i else j] for k0, c0, j in marks]
+        else:
+            i = rng.choice(kvs) if kind == "key" else rng.choice(cms) if kind == "comment" else 0 if kind == "line-1" else rng.randrange(len(out))
+            if i in taken:
+                continue
+            # with the line's indentation kept, the character is a token of its own (the whole key); without, it starts the token
+            keep = rng.random() < (0.0 if kind == "comment" else 0.3 if kind == "key" else 0.5)
+            out[i] = ch + (out[i] if keep else out[i].lstrip())
+        marks.append([kind, "U+%04X" % ord(ch), i])
+    return out, marks
+
+
+def cut_starting_at(rng, lines, starts, main_rel="m/main.conf"):
+    """a balanced range that STARTS at one of the lines `starts` is moved into a fragment (same / sub / parent directory), then up
+    to two further cuts of the ordinary kind are made in what remains (they may move the new %include line along: nested
+    includes).  Returns (inline, main, files, placements) like cutter.cut_via_define, or None"""
+    import posixpath
+    import urllib.request
+    i0 = rng.choice(starts)
+    ranges = [r for r in cutter.balanced_ranges(lines) if r[0] == i0]
+    if not ranges:
+        return None
+    # (short ranges more often than the uniform choice would: the single line is the commonest fragment of this kind)
+    i, j = ranges[0] if rng.random() < 0.4 else rng.choice(ranges)
+    where = rng.choice(["same", "sub", "parent"])
+    base = posixpath.dirname(main_rel)
+    name = "first%s.conf" % rng.choice(["", " x", "-\u00e9"])
+    if where == "same":
+        frel, arg = posixpath.join(base, name), name
+    elif where == "sub":
+        frel, arg = posixpath.join(base, "subf", name), "subf/" + name
+    else:
+        frel, arg = posixpath.join(posixpath.dirname(base), name), "../" + name
+    frel = posixpath.normpath(frel)
+    # the %include line takes the indentation of the line AFTER the character (the line itself starts in column 0)
+    rest = lines[i][1:]
+    ind = rest[: len(rest) - len(rest.lstrip(" \t"))]
+    main = lines[:i] + [ind + "%include " + urllib.request.pathname2url(arg)] + lines[j:]
+    placements = [(main_rel, frel, "first:" + where, i, j)]
+    files = {frel: lines[i:j]}
+    more = rng.choice([0, 0, 1, 2])
+    if more:
+        main, files2, pl2 = cutter.cut(rng, main, more, main_rel)
+        files.update(files2)
+        placements += pl2
+    return list(lines), main, files, placements
+
+
+def _first_character_in_key_names(ctx):
+    """VALID texts for the same class of cuts: under keytype "string" with free-form keys every line-initial character of FIRST is
+    part of a key name (top level: a wildcard key collected into a mapping; in a section: the same), so the text loads and the
+    character must arrive in the value tree - the text with the run of lines starting at that line moved into a fragment gives the
+    same mapping as the inlined text.  Real vs real: ZConfig.loadConfig(schema, path / URL of the includer) and
+    loadConfigFile(schema, open file) against loadConfigFile(schema, StringIO(inlined text))."""
+    import io
+    import os
+    import shutil
+    import tempfile
+    import urllib.request
+    import ZConfig
+    rng = ctx.rng
+    schema = ZConfig.loadSchemaFile(io.StringIO(
+        "<schema keytype='string'>"
+        "<sectiontype name='env' keytype='string'><key name='+' attribute='vars'/><multikey name='path' attribute='path'/></sectiontype>"
+        "<multisection type='env' name='*' attribute='envs'/>"
+        "<key name='+' attribute='top'/>"
+        "</schema>"))
+
+    def load(fn):
+        try:
+            cfg, _ = fn()
+        except ZConfig.ConfigurationError as e:
+            return ["rejected", type(e).__name__, str(e)[:100]]
+        except Exception as e:
+            return ["internal", type(e).__name__]
+        return ["ok", sorted(cfg.top.items()), [[s.getSectionName(), sorted(s.vars.items()), list(s.path)] for s in cfg.envs]]
+
+    n = 400 if ctx.thorough() else 60
+    root = tempfile.mkdtemp(prefix="zcv-c06f-", dir="/dev/shm" if os.path.isdir("/dev/shm") else None)
+    cwd0 = os.getcwd()
+    try:
+        for t in range(n):
+            # a small valid text: distinct free-form keys at top level and in one or two sections
+            lines, serial = [], 0
+            for s in range(rng.randint(1, 3)):
+                insect = s > 0 or rng.random() < 0.4
+                if insect:
+                    lines.append("<env%s>" % rng.choice(["", " e%d" % s]))
+                for _ in range(rng.randint(1, 3)):
+                    serial += 1
+                    if insect and rng.random() < 0.3:
+                        lines.append(rng.choice(["", "  "]) + "path /p%d" % serial)
+                    else:
+                        lines.append(rng.choice(["", "  "]) + "%s%d v%d" % (rng.choice(["k", "Key", "a-b", "x.y"]), serial, serial))
+                if rng.random() < 0.3:
+                    lines.append("# comment %d" % s)
+                if insect:
+                    lines.append("</env>")
+            lines, firsts = add_first_characters(rng, lines, p=1.0)
+            cut = cut_starting_at(rng, lines, [i for _, _, i in firsts])
+            if not cut:
+                continue
+            inline, main, files, placements = cut
+            d = os.path.join(root, "t%d" % t)
+            for rel, ls in list(files.items()) + [("m/main.conf", main)]:
+                p = os.path.join(d, rel)
+                os.makedirs(os.path.dirname(p), exist_ok=True)
+                with open(p, "w", encoding="utf-8", newline="") as f:
+                    f.write("".join(l + "\n" for l in ls))
+            path = os.path.join(d, "m", "main.conf")
+            way = rng.choice(["abs", "rel", "url", "fileobj"])
+            want = load(lambda: ZConfig.loadConfigFile(schema, io.StringIO("".join(l + "\n" for l in inline))))
+            try:
+                os.chdir(os.path.join(d, "m"))
+                if way == "abs":
+                    got = load(lambda: ZConfig.loadConfig(schema, path))
+                elif way == "rel":
+                    got = load(lambda: ZConfig.loadConfig(schema, "main.conf"))
+                elif way == "url":
+                    got = load(lambda: ZConfig.loadConfig(schema, "file://" + urllib.request.pathname2url(path)))
+                else:
+                    with open(path, encoding="utf-8", newline="\n") as f:
+                        got = load(lambda: ZConfig.loadConfigFile(schema, f))
+            finally:
+                os.chdir(cwd0)
+            ctx.evaluations += 1
+            ctx.nontriv(("first-character", tuple(main), tuple(sorted(files))))
+            ctx.count("first-character-in-key-name:inline-" + want[0])
+            for kind, code, _ in firsts:
+                ctx.count("first-character-in-key-name:" + code)
+            if want[0] == "internal" or got[0] == "internal":
+                continue   # C07's observable
+            if want[0] != got[0] or (want[0] == "ok" and want != got):
+                ctx.violate("moving balanced lines that start with a line-initial non-blank character into an %%include changed the "
+                            "outcome: inline %s, with include %s" % (ascii(want), ascii(got)),
+                            {"schema": "keytype string, free-form keys at top level and in <env> sections", "inline": inline,
+                             "lines": main, "files": files, "placements": placements, "way": way,
+                             "first_characters_of_lines": firsts, "inline_outcome": want, "include_outcome": got},
+                            signature="C06:first-character:%s->%s" % (want[0], got[0]))
+    finally:
+        os.chdir(cwd0)
         shutil.rmtree(root, ignore_errors=True)
